@@ -8,6 +8,7 @@
   model cannot exhibit: see `depth_unbounded` and known finding K2.
 -/
 import IppModel.Lemmas.Total
+import IppModel.Props.C02b
 namespace Ipp.Props.C02
 open Ipp Ipp.Gen
 
